@@ -199,6 +199,54 @@ def _checked_history(ctx, h, steps):
                         hold=5, release=1, gc=2, swap=2, sift=1, order=1))
 
 
+def checked_subst_history(ctx, h, steps, kinds):
+    """Random history on a used manager (collections, re-used node numbers, swaps); every
+    quantify / let result is compared with the truth-table semantics."""
+    rng = ctx.rng
+    for _ in range(steps):
+        names = h.names()
+        if not names or len(names) > 6:
+            h.step(dict(var=3, apply=5, hold=3, gc=1))
+            continue
+        sp = Space(names)
+        r = rng.random()
+        if r < 0.5 and len(h.pool) > 1:
+            kind = rng.choice(kinds)
+            tt = TT(h.b, names)
+            u = h.pick()
+            tu = tt.of(u)
+            if kind == 'quantify':
+                q = [v for v in names if rng.random() < 0.4]
+                fa = rng.randint(0, 1)
+                ans = h.s.op(0, 'quantify', u, ','.join('n:' + v for v in q), fa)
+                want = sp.forall(tu, q) if fa else sp.exists(tu, q)
+            elif kind == 'cofactor':
+                d = {v: rng.randint(0, 1) for v in names if rng.random() < 0.4} or {names[0]: 1}
+                ans = h.s.op(0, 'let_b', u, ','.join(f'n:{k}={v}' for k, v in d.items()))
+                want = tu
+                for k, v in d.items():
+                    want = sp.cof(want, k, v)
+            elif kind == 'rename':
+                d = {v: rng.choice(names) for v in names if rng.random() < 0.5} or {names[0]: names[-1]}
+                ans = h.s.op(0, 'let_n', u, ','.join(f'{k}={v}' for k, v in d.items()))
+                want = sp.rename(tu, d)
+            else:
+                ks = rng.sample(names, rng.randint(1, min(2, len(names))))
+                gs = {k: h.pick() for k in ks}
+                ans = h.s.op(0, 'let_r', u, ','.join(f'{k}={g}' for k, g in gs.items()))
+                want = sp.compose(tu, {k: tt.of(g) for k, g in gs.items()})
+            res = h.add(ans)
+            ctx.evaluations += 1
+            ctx.count('checked-' + kind)
+            if res is None or TT(h.b, names).of(res) != want:
+                ctx.violation(f'{kind} wrong after a history', dict(
+                    op=kind, lines=list(h.s.lines), got=ans, tags=dict(call=kind + '-history')))
+                return
+        else:
+            h.step(dict(var=4, apply=6, ite=1, hold=4, release=3, gc=4, swap=1, order=1))
+            h.prune()
+
+
 def _function_operators(ctx):
     """`~ & | implies equiv <= < == !=` of dd.autoref.Function against truth tables."""
     import dd.autoref as _auto
@@ -430,6 +478,15 @@ def check_C03(ctx):
             if ctx.time_left() < 10:
                 break
     ctx.exhaustive = True
+    # used managers: collections, re-used node numbers, swaps between quantifications
+    for k in range(60 if ctx.tier == 'quick' else 600):
+        if ctx.time_left() < 5:
+            break
+        names = [chr(ord('a') + i) for i in range(rng.randint(2, 5))]
+        h = History(ctx, names)
+        checked_subst_history(ctx, h, rng.randint(20, 80), ['quantify'])
+        ctx.case(('quantify-history', k, len(h.s.lines)))
+        h.finish(SECTIONS_L3, 'C03 history')
     if ctx.tier == 'thorough':
         _quantify_four(ctx)
 
@@ -533,6 +590,15 @@ def check_C04(ctx):
         s.close()
         if ctx.time_left() < 10:
             break
+    # used managers: collections, re-used node numbers, swaps between substitutions
+    for k in range(60 if ctx.tier == 'quick' else 600):
+        if ctx.time_left() < 5:
+            break
+        names = [chr(ord('a') + i) for i in range(rng.randint(2, 5))]
+        h = History(ctx, names)
+        checked_subst_history(ctx, h, rng.randint(20, 80), ['cofactor', 'rename', 'compose'])
+        ctx.case(('let-history', k, len(h.s.lines)))
+        h.finish(SECTIONS_L3, 'C04 history')
     # empty dictionary: identity
     s = fresh(ctx, ABC)
     r = s.val(s.op(0, 'var', 'a'))
@@ -1131,6 +1197,40 @@ def check_C14(ctx):
         s.state(0)
         ctx.case(('vars-history', k, tuple(s.lines[1:6])))
         ctx.add_session(s, SECTIONS_L3, 'C14 history')
+        s.close()
+    # constructor / add_var with explicit levels given in any declaration order
+    # (the constructor declares in dict order: transient gaps are normal there)
+    for k in range(60 if ctx.tier == 'quick' else 600):
+        n = rng.randint(1, 5)
+        names = pool_names[:n]
+        decl = names[:]
+        rng.shuffle(decl)
+        lv = {v: i for i, v in enumerate(names)}
+        s = Session(ctx)
+        ans = s.op(0, 'new', ','.join(f'{v}={lv[v]}' for v in decl))
+        s.ledger[0] = {}
+        if not ans.startswith('ok'):
+            ctx.violation('constructor refused a valid order', dict(lines=list(s.lines), got=ans,
+                                                                    tags=dict(call='constructor')))
+            s.close()
+            continue
+        b = s.mgr(0)
+        bad = order_views_ok(b) + check_invariants(b, {}, probe=True)
+        # the manager must be usable: build something on every variable and count it
+        acc = 1
+        for v in names:
+            acc = s.val(s.op(0, 'apply', 'xor', acc, s.val(s.op(0, 'var', v))))
+        ans = s.op(0, 'count', acc)
+        if ans != f'ok {1 << (n - 1)}':
+            bad.append(f'count of the parity function is {ans}')
+        bad += check_invariants(b, {}, probe=True)
+        ctx.evaluations += 1
+        if bad:
+            ctx.violation('manager built from an order declared out of level order is broken', dict(
+                problems=bad[:4], lines=list(s.lines), tags=dict(call='constructor')))
+        s.state(0)
+        ctx.case(('constructor', tuple(decl)))
+        ctx.add_session(s, SECTIONS_L3, 'C14 constructor')
         s.close()
     # idempotence of declare
     s = Session(ctx)
